@@ -250,6 +250,85 @@ def rule_E4(ctx: Ctx) -> None:
               "no store into cfg.maze_ctor_kwargs / endpoint_kwargs is reachable from generate/from_config (those dicts are shared with the caller's config by the identity serialization_fn)")
 
 
+def rule_E6(ctx: Ctx) -> None:
+    """config-driven filter application by abstract evaluation (E15): _apply_filters_from_config interpreted on symbolic filter histories (empty,
+    repeated names, positional and keyword arguments, unknown and custom names): every recorded filter is applied once, in order, with its own
+    arguments, each to the result of the previous one; unknown names raise; the result is the last dataset"""
+    from sa.fold import Closure, EvalRaised, Evaluator, Obj, Unknown
+
+    f = ctx.index.func(f"{DS}.GPTDataset._apply_filters_from_config")
+    known = {"path_length": 1, "truncate_count": 1, "cut_percentile_shortest": 1, "collect_generation_meta": 1}
+    hists = [[], [{"name": "truncate_count", "args": (5,), "kwargs": {}}],
+             [{"name": "path_length", "args": (), "kwargs": {"min_length": 3}}, {"name": "cut_percentile_shortest", "args": (10.0,), "kwargs": {}},
+              {"name": "path_length", "args": (4,), "kwargs": {}}, {"name": "cut_percentile_shortest", "args": (10.0,), "kwargs": {}}],
+             [{"name": "collect_generation_meta", "args": (), "kwargs": {}}, {"name": "truncate_count", "args": (2,), "kwargs": {}}],
+             [{"name": "truncate_count", "args": (5,), "kwargs": {}}, {"name": "no_such_filter", "args": (), "kwargs": {}}],
+             [{"name": "__custom__:mine", "args": (), "kwargs": {}}]]
+    bad, unk = [], []
+    for hist in hists:
+        events: list = []
+        import copy as _copy
+
+        start = Obj("dataset", {"cfg": Obj("cfg", {"applied_filters": _copy.deepcopy(hist)}), "_FILTER_NAMESPACE": Obj("ns", dict(known)), "n": 0, "filter_by": "<filter_by of #0>"})
+
+        def hook(ev, node, env, events=events):
+            d = dotted_of(node.func) or ""
+            if isinstance(node.func, ast.Call) and dotted_of(node.func.func) == "getattr" and len(node.func.args) == 2:
+                recv = ev.ev(node.func.args[0], env)
+                name = ev.ev(node.func.args[1], env)
+                args = ev._elts(node.args, env)
+                kwargs = {}
+                for kw in node.keywords:
+                    kwargs.update(ev.ev(kw.value, env) if kw.arg is None else {kw.arg: ev.ev(kw.value, env)})
+                events.append(("apply", recv, name, tuple(args), dict(kwargs)))
+                n = len([e for e in events if e[0] == "apply"])
+                prev = [e for e in events if e[0] == "apply"]
+                recs = [{"name": e[2], "args": e[3], "kwargs": e[4]} for e in prev]
+                return Obj("dataset", {"cfg": Obj("cfg", {"applied_filters": recs}), "_FILTER_NAMESPACE": Obj("ns", dict(known)), "n": n, "filter_by": f"<filter_by of #{n}>"})
+            if d.endswith(".update_self_config"):
+                return None
+            if d.endswith(".to_fname"):
+                return "FNAME"
+            if d == "_check_filter_equality":
+                a, b = [ev.ev(x, env) for x in node.args[:2]]
+                events.append(("check", a == b))
+                return None
+            return NotImplemented
+
+        from sa.absobj import make_name_hook
+
+        name_hook = make_name_hook(ctx.index, f.module, lambda hook=hook: {"__call__": hook})
+        try:
+            out = Evaluator({"__call__": hook, "__name__": name_hook}).run_body(X.body_wo_doc(f.node), {f.params()[0]: start})
+            res = ("return", out.attrs.get("n") if isinstance(out, Obj) else repr(out)[:40])
+        except EvalRaised as e:
+            res = ("raise", e.exc_name)
+        except Unknown as e:
+            unk.append(str(e)[:160])
+            continue
+        applies = [e for e in events if e[0] == "apply"]
+        bad_name = next((h["name"] for h in hist if h["name"] not in known), None)
+        why = []
+        if bad_name is not None:
+            if res != ("raise", "ValueError"):
+                why.append(f"outcome {res} for the unknown filter {bad_name!r}, expected ValueError")
+        else:
+            want = [(f"<filter_by of #{i}>", h["name"], tuple(h["args"]), dict(h["kwargs"])) for i, h in enumerate(hist)]
+            got = [e[1:] for e in applies]
+            if got != want:
+                why.append(f"applied {[(g[0], g[1]) for g in got]}, recorded {[(w[0], w[1]) for w in want]} (each filter once, in order, on the previous result, with its own arguments)")
+            if res != ("return", len(hist)):
+                why.append(f"outcome {res}, expected the dataset produced by the last filter")
+        if why:
+            bad.append({"recorded_filters": [h["name"] for h in hist], "why": why})
+    ctx.judge(f, False if bad else None if unk else True, {"abstract_histories": len(hists), "deviations": bad[:3], "undecided": unk[:2]},
+              "every recorded filter is applied exactly once, in recorded order, with its recorded arguments, each to the previous result; an unknown or custom name raises "
+              "ValueError; the dataset returned is the last result",
+              "the config-driven entry point returns a dataset filtered differently from what the configuration says")
+    if not bad and not unk:
+        ctx.cover([f.qualname], by=ctx.current_rule, supersedes=["C04.E5", "C08.G7", ctx.current_rule], whole_rules=["C04.E5", "C08.G7"], bound=f"{len(hists)} symbolic filter histories")
+
+
 def rule_E5(ctx: Ctx) -> None:
     f = ctx.index.func(f"{DS}.GPTDataset._apply_filters_from_config")
     loops = [n for n in f.node.body if isinstance(n, ast.For)]
@@ -326,6 +405,7 @@ RULES = [
     Rule("C04.E2", rule_E2, floor=3, doc="reseed dominates generation"),
     Rule("C04.E3", rule_E3, floor=2, doc="nothing consumes randomness between reseed and first draw"),
     Rule("C04.E4", rule_E4, floor=4, doc="ownership of the configuration"),
+    Rule("C04.E6", rule_E6, floor=1, doc="config-driven filter application by abstract evaluation on symbolic filter histories"),
     Rule("C04.E5", rule_E5, floor=3, doc="filters in order, none skipped"),
     Rule("C04.E12", lambda ctx: __import__("sa.mypyx", fromlist=["x"]).cross_check(ctx, [HELPER, GENERATE, f"{DS}.GPTDataset.from_config"], "C04.E12"), floor=1,
          doc="thorough: call graph over-approximates mypy's type-resolved edges on the generation closure", tier="thorough"),
